@@ -292,6 +292,11 @@ def check_kill(case):
   first_kill_exit = idx.get('kill-exit')
   if first_kill_exit is not None and first_kill_exit < idx.get('start', 10**9) and 'body-begin' in idx:
     r.bad('C12/kill/body-ran-after-kill-before-start', 'kill() returned before start() but the body ran; log %r' % (log,))
+  # a kill that has completed before the body began (whether before or after start()) prevents the body:
+  # kill() found the thread proc not running and relies on run() testing _killed under the running lock
+  if first_kill_exit is not None and 'body-begin' in idx and first_kill_exit < idx['body-begin'] and not (
+      first_kill_exit < idx.get('start', 10**9)):
+    r.bad('C12/kill/body-ran-after-kill-before-body', 'kill() returned before the body began, yet the body ran; log %r' % (log,))
   # a kill entirely inside the body with >= 2 steps left
   steps = [i for i, e in enumerate(log) if e[0] == 'body-step']
   ke, kx = idx.get('kill-enter'), idx.get('kill-exit')
